@@ -25,7 +25,7 @@ pub fn curated() -> Vec<(&'static str, Spec, bool)> {
         t("byte"), t("."), t(".."), t("..."), t("("), t(")"), t("=>"), t("="), t("=="), t("==="), t("+"), t("++"),
     ]);
     add("simple_bytes_numbers", true, vec![s(r"[ \t\n\f]+"), r("byte|bytes[1-9][0-9]?"), r("int(8|16|24|32|40|48|56|64)"), t("uint8"), t("uint16"), t("uint32")]);
-    add("abcs", true, vec![s(r"[ \t\n\f]+"), r("[abc]+"), r("[cde]+"), t("abc"), t("cde").prio(7)]);
+    add("abcs", true, vec![s(r"[ \t\n\f]+"), r("[abc]+").prio(3), r("[cde]+").prio(2), t("abc"), t("cde").prio(7)]);
     // ---- advanced.rs
     add("advanced", true, vec![
         s(r"[ \t\n\f]+"),
@@ -33,12 +33,12 @@ pub fn curated() -> Vec<(&'static str, Spec, bool)> {
         r("0[xX][0-9a-fA-F]+"),
         r("-?[0-9]+"),
         r("[0-9]*\\.[0-9]+([eE][+-]?[0-9]+)?|[0-9]+[eE][+-]?[0-9]+"),
-        t("~"), r("~?"), r("~%"), r("~[a-z][a-z]+"), r("~[0-9]+-?[\\.0-9a-f]+"), r("~s[0-9]+(\\.\\.[0-9a-f\\.]+)?"), r("~[hm][0-9]+"),
+        t("~"), r("~\\?"), r("~%"), r("~[a-z][a-z]+"), r("~[0-9]+-?[\\.0-9a-f]+"), r("~s[0-9]+(\\.\\.[0-9a-f\\.]+)?"), r("~[hm][0-9]+"),
         r("[ąęśćżźńół]+"), r(r"[\u0400-\u04FF]+"), r(r"([#@!\\?][#@!\\?][#@!\\?][#@!\\?])+"), r("try|type|typeof"), t("🦀+"),
     ]);
-    add("what_the_heck", true, vec![s(r"[ \t\n\f]+"), r("'(?:'?(?:[[:ascii:][^\\\\']]|\\\\[[:ascii:]]))*'"), r("(?:/(?:\\\\.|[^\\\\/])+/[a-zA-Z]*)"), r("(?:'(?:(?:[^'\\\\])|(?:\\\\.))*')"), r("r#*\"")]);
+    add("what_the_heck", true, vec![s(r"[ \t\n\f]+"), r("'(?:'?(?:[[:ascii:][^\\\\']]|\\\\[[:ascii:]]))*'").prio(9), r("(?:/(?:\\\\.|[^\\\\/])+/[a-zA-Z]*)").prio(8), r("(?:'(?:(?:[^'\\\\])|(?:\\\\.))*')").prio(7), r("r#*\"")]);
     // ---- css.rs
-    add("css", true, vec![s(r"[ \t\n\f]+"), r("em|ex|ch|rem|vw|vh|vmin|vmax"), r("cm|mm|Q|in|pc|pt|px"), r("[+-]?[0-9]*[.]?[0-9]+(?:[eE][+-]?[0-9]+)?"), r("[-a-zA-Z_][a-zA-Z0-9_-]*"), t("{"), t("}"), t(":"), t(";")]);
+    add("css", true, vec![s(r"[ \t\n\f]+"), r("em|ex|ch|rem|vw|vh|vmin|vmax").prio(11), r("cm|mm|Q|in|pc|pt|px").prio(10), r("[+-]?[0-9]*[.]?[0-9]+(?:[eE][+-]?[0-9]+)?").prio(3), r("[-a-zA-Z_][a-zA-Z0-9_-]*"), t("{"), t("}"), t(":"), t(";")]);
     // ---- edgecase.rs
     add("crunch", true, vec![s(" "), r("else|exposed|if|then"), r("[a-z][a-zA-Z0-9]*")]);
     add("numbers", true, vec![s(r"[ \t\n\f]+"), r(r"[0-9][0-9_]*"), r(r"[0-9][0-9_]*\.[0-9][0-9_]*[TGMKkmupfa]"), r(r"[0-9][0-9_]*[TGMKkmupfa]"), r(r"[0-9][0-9_]*\.[0-9][0-9_]*[eE][+-]?[0-9][0-9_]*"), r(r"[0-9][0-9_]*\.[0-9][0-9_]*")]);
@@ -54,7 +54,7 @@ pub fn curated() -> Vec<(&'static str, Spec, bool)> {
     add("unicode_err_split", true, vec![t("a")]);
     add("opt_minus", true, vec![s(r"[ \t\n\f]+"), r("-?[0-9]+"), t("-"), r("-?[0-9]+\\.[0-9]+")]);
     // ---- old_logos_bugs
-    add("i160", true, vec![s(" "), t("else"), t("else if"), r("[a-z]*")]);
+    add("i160", true, vec![s(" "), t("else"), t("else if"), r("[a-z]+")]);
     add("i173", true, vec![r("[a-z]+").prio(1), t("fizz"), t("buzz"), t("bar").prio(20)]);
     add("i179", true, vec![s(" "), r("[a-zA-Y]+"), r("[a-zA-Z0-9]*[Z][a-zA-Z0-9]*"), t("😎"), t("😁")]);
     add("i180", true, vec![s(r"[ \t\n\f]+"), r("[0-9]+"), t("fast"), t("."), r("[a-zA-Z]+")]);
@@ -78,7 +78,7 @@ pub fn curated() -> Vec<(&'static str, Spec, bool)> {
     add("i272", true, vec![r("[0-9]+"), r(r"[0-9]+\.[0-9]+"), t("."), t("..")]);
     add("i384", true, vec![r(r"([0123456789]|#_#)*#.#[0123456789](_|#_#)?").greedy(), r("[0-9]+").prio(1)]);
     add("i394", true, vec![r("a|a*b"), r("(A+.)*A+").greedy(), r("c(a*b?)*c")]);
-    add("i420", true, vec![r("0*.0+").greedy(), r("(0+)*.0+").greedy()]);
+    add("i420", true, vec![r("0*.0+").greedy().prio(5), r("(0+)*.0+").greedy().prio(4)]);
     add("i424", true, vec![s(" "), r("c(a*b?)*c"), r("ca+")]);
     add("i456", true, vec![r("a|b"), r("[a-c]{2}")]);
     add("i461", true, vec![t("a"), t("b"), r(r"\\u\{[^}]*\}"), r("[de]")]);
@@ -88,10 +88,10 @@ pub fn curated() -> Vec<(&'static str, Spec, bool)> {
         r(r"-?(?:0|[1-9]\d*)(?:\.\d+)?(?:[eE][+-]?\d+)?"), r(r#""([^"\\\x00-\x1F]|\\(["\\bnfrt/]|u[a-fA-F0-9]{4}))*""#)]);
     add("brainfuck", true, vec![s(r".|[\r\n]").prio(1), t("<"), t(">"), t("+"), t("-"), t("."), t(","), t("["), t("]")]);
     add("calculator", true, vec![s(r"[ \t\n]+"), t("+"), t("-"), t("*"), t("/"), t("("), t(")"), r("[0-9]+")]);
-    add("comments", true, vec![s(r"[ \t\n\f]+"), r(r"/\*([^*]|\*+[^*/])*\*+/"), r("//[^\n]*"), t("/"), r("[a-z]+")]);
+    add("comments", true, vec![s(r"[ \t\n\f]+"), r(r"/\*([^*]|\*+[^*/])*\*+/"), r("//[^\n]*").greedy(), t("/"), r("[a-z]+")]);
     add("common_regex_float", true, vec![r(r"[0-9]+\.[0-9]+"), r("[0-9]+"), s(" +")]);
     // ---- look-around
-    add("eol", true, vec![r("(?m:a+$)"), r("a+"), t("\n")]);
+    add("eol", true, vec![r("(?m:a+$)").prio(5), r("a+"), t("\n")]);
     add("end_anchor", true, vec![r("ab$"), r("[ab]+").prio(1)]);
     add("word_boundary", true, vec![r(r"if(?-u:\b)"), r("[a-z]+").prio(1), s(" +")]);
     add("half_word", true, vec![r(r"a+(?-u:\b{end-half})"), r("[a-z0-9]+").prio(1), s(" ")]);
